@@ -49,6 +49,7 @@ ASSUMPTIONS = [
     "the Gaussian and uniform draws are scripted through jax.random.normal/uniform (ScriptedPRNG); key splitting stays real, the key is an input label (VERIF_SEED)",
     "reference pi, gradient, Hessian and Gaussian densities are float64 closed forms (finite-difference self-test per unit); liesel computes in float32; tolerances: alpha 2e-4 absolute, log-ratio 2e-3 + 2e-5*magnitude when alpha_ref > 1e-4",
     "the MH acceptance rule itself (u < alpha) is C05's subject; here u only labels the accept / reject branch",
+    "a proposal is observed through the accepted state at u = 0; where the reported alpha is exactly 0 (float32 underflow, or the NaN guard with error code 90 after a float32 overflow far out in the Poisson families) the proposal is predicted from the documented law (Cholesky square root) and the reference alpha there must be <= 2e-4",
     "jit+vmap is trusted to compute the same function as eager execution except on the eager sub-lattice where both are compared",
 ]
 
@@ -75,9 +76,9 @@ E_LAT = {"quick": [1, 4], "thorough": [1, 2, 3, 4]}
 X1 = {"quick": [-1.2, -0.3, 0.4, 1.1, 2.0], "thorough": [-2.0, -1.2, -0.7, -0.3, 0.0, 0.4, 0.8, 1.1, 1.6, 2.0, 2.6]}
 X3 = {
     "quick": [[-0.8, 0.5, 1.4], [-1.0, 0.2], [-0.4, 0.9]],
-    "thorough": [[-1.5, -0.8, 0.0, 0.5, 1.4], [-1.0, -0.3, 0.2, 1.2], [-0.9, -0.4, 0.3, 0.9]],
+    "thorough": [[-1.5, -0.8, 0.5, 1.4], [-1.0, 0.2, 1.2], [-0.9, -0.4, 0.9]],
 }
-ZP = {"quick": [-1.3, 0.6], "thorough": [-2.1, -0.7, 0.6, 1.6]}
+ZP = {"quick": [-1.3, 0.6], "thorough": [-2.1, 0.6, 1.6]}
 Z1 = {"quick": [0.0, 1.0, -1.0, 0.5, -2.2, 1.7], "thorough": [0.0, 1.0, -1.0, 0.5, -2.2, 1.7, 0.1, -0.4, 3.0, -3.1]}
 EAGER = {"quick": 3, "thorough": 8}
 OFFS = {"quick": [0.3], "thorough": [0.3, -0.6]}
@@ -445,6 +446,35 @@ class Oracle:
         m, C = self.law(th, x_from, s)
         return R.mvn_logpdf(x_to, m, C)
 
+    def predict(self, theta, xb, z, s):
+        """proposal predicted from the documented law (only used when alpha == 0 hides x')"""
+        if self.kernel == "mh":
+            return R.mh_map(self.u["proposal"], xb, z, s)
+        m, C = self.law(theta, xb, s)
+        # x' = m + A z with the square root liesel documents for mvn_sample (Cholesky factor
+        # L of the inverse covariance, A = L^-T)
+        L = np.linalg.cholesky(np.linalg.inv(C))
+        return m + np.linalg.solve(L.T, z)
+
+    def alpha_predicted(self, theta, xb, z, s):
+        with np.errstate(all="ignore"):
+            xp = self.predict(theta, xb, z, s)
+            if not np.all(np.isfinite(xp)):
+                return 0.0  # the documented proposal itself overflows float64: pi(x') = 0
+            lp_x = self.s.block.logp(theta, xb)
+            lp_xp = self.s.block.logp(theta, xp)
+            if self.kernel == "mh" and self.u["proposal"] == "mult" and np.any(xp <= 0):
+                return 0.0
+            if not (lp_xp - lp_x > -700.0):
+                # pi(x')/pi(x) < e^-700; the Gaussian proposal ratio is bounded by
+                # exp(|z|^2/2 + log-determinant terms) << e^600 on these lattices
+                return 0.0
+            try:
+                logr = self.ratio(theta, xb, xp, s)[0]
+            except (RuntimeError, np.linalg.LinAlgError):
+                return float("nan")
+            return R.alpha_of(logr)
+
     def ratio(self, theta, xb, xp, s):
         """returns (log ratio, lp_x, lp_xp, lq_fwd, lq_bwd)"""
         b = self.s.block
@@ -555,8 +585,13 @@ def run_kernel(unit):
                     W.fail("alpha-range", case, f"acceptance probability {a.tolist()} outside [0,1]")
                     xps.append(None)
                     continue
-                if np.any(A1["err"][ix, iz, is_] != 0):
-                    W.fail("error-code", case, f"error code {A1['err'][ix, iz, is_].tolist()} on a regular case")
+                errs = A1["err"][ix, iz, is_]
+                if np.any((errs != 0) & (errs != 90)):
+                    W.fail("error-code", case, f"undocumented error code {errs.tolist()}")
+                if np.any((errs == 90) & (a != 0)):
+                    W.fail("error-code", case, f"error code 90 (NaN) but acceptance probability {a.tolist()}")
+                if np.any(errs == 90) and not np.all(errs == 90):
+                    W.fail("alpha-depends-on-u-or-epoch", case, f"error code differs across u/epoch type: {errs.tolist()}")
                 if a.max() - a.min() > 2e-5:  # both cond branches are compiled separately: float32 fusion noise ~1e-6
                     W.fail("alpha-depends-on-u-or-epoch", case, f"alpha differs across u/epoch type: {a.tolist()}")
                 alpha = float(a[0, 0])
@@ -586,8 +621,15 @@ def run_kernel(unit):
                             W.fail("rest-changed", {**case, "u": float(u)}, "the key 'off' outside the block was modified")
                 xps.append(xp)
                 if xp is None:
-                    res.outcome(kname, "proposal-unobservable(alpha=0)")
-                    # the reference must agree that alpha is (numerically) zero
+                    # alpha == 0 exactly (float32 underflow, or the NaN guard after a float32
+                    # overflow: error code 90): the proposal cannot be observed. The reference
+                    # must agree that the acceptance probability of the *predicted* proposal
+                    # (documented law, Cholesky square root) is negligible.
+                    nan_guard = bool(np.all(errs == 90))
+                    res.outcome(kname, "alpha=0", "nan-guard" if nan_guard else "underflow")
+                    a_pred = orc.alpha_predicted(theta, xb, zs[iz].astype(np.float64), s)
+                    if not (a_pred <= TOL_ALPHA):
+                        W.fail("alpha", {**case, "nan_guard": nan_guard}, f"reported alpha 0.0 (error codes {errs.tolist()}) but the reference gives {a_pred} for the predicted proposal")
                     continue
                 # alpha oracle with the observed proposal
                 logr, lp_x, lp_xp, fwd, bwd = orc.ratio(theta, xb, xp, s)
